@@ -98,10 +98,42 @@ def impl_shape(src):
         return "err:" + type(e).__name__
 
 
+def unicode_hazards(limit):
+    """Characters OUTSIDE the code page that a Unicode transformation turns into (a sequence containing) a syntax-significant
+    character -- NFC / NFD / NFKC / NFKD, case mapping, casefold -- and letter + combining-mark pairs that compose to one
+    character.  A payload is data whatever such a transformation would make of it.  Computed from unicodedata, not listed."""
+    import unicodedata
+    syn = set(SYNTAX) | set("`»«‛\\#⁺ ")
+    out = []
+    for cp in range(0x80, 0x30000):
+        ch = chr(cp)
+        if ch in syn:
+            continue
+        forms = {unicodedata.normalize(f, ch) for f in ("NFC", "NFD", "NFKC", "NFKD")} | {ch.upper(), ch.lower(), ch.casefold()}
+        if any(f != ch and any(c in syn for c in f) for f in forms):
+            out.append(ch)
+    step = max(1, len(out) // limit)
+    out = out[::step][:limit]
+    out += ["a\u0307", "e\u0301", "o\u0308", "n\u0303", "\u0307", "A\u030a"]
+    return out
+
+
 def gen_payload_cases(env):
     """(context, kind, payload) triples: exhaustive up to the tier's bound, then sampled."""
     exhaustive_len = env.budget(1, 2)
     cases = []
+    hz = unicode_hazards(400)
+    env.note("unicode_hazard_payloads", {"count": len(hz), "examples": [f"U+{ord(h[0]):04X}" + ("+" + f"U+{ord(h[1]):04X}" if len(h) > 1 else "") for h in hz[:12]]})
+    for ctx in (CONTEXTS if env.thorough else CONTEXTS[env.seed % 2::2]):
+        for h in hz:
+            for kind in ("string", "twochar", "character", "comment"):
+                if kind == "character":
+                    pl = h[:1]
+                elif kind == "twochar":
+                    pl = (h + "b")[:2]
+                else:
+                    pl = "x" + h + "y"
+                cases.append((ctx, kind, pl))
     deep = deep_contexts(env.rng, env.budget(120, 600))
     env.note("deep_contexts", len(deep))
     for ctx in deep:
